@@ -451,6 +451,7 @@ type FuncContract struct {
 	MayPanic  bool
 	Opaque    bool // body not verified: contract is trusted
 	Pure      bool // extern: no heap effect
+	Deterministic bool // results are functions of the scalar/string arguments
 	NoInline  bool
 	InlineCalls bool
 	Overflow  bool     // emit overflow obligations for signed arithmetic too
@@ -460,6 +461,8 @@ type FuncContract struct {
 	IsExtern  bool
 	Params    []string // for iface/extern contracts written with explicit parameter names
 	Assumes   []*Clause
+	Uses      []string // lemmas assumed at entry (proved separately)
+	PostUses  []string // lemmas assumed at every return
 	CallSites []*CallSiteSpec
 	Raw       []string
 }
@@ -491,6 +494,7 @@ type Lemma struct {
 	Requires []*Clause
 	Ensures  []*Clause
 	Induct   string
+	Uses     []string
 }
 
 type PkgContracts struct {
@@ -501,6 +505,7 @@ type PkgContracts struct {
 	Order    []string
 	Ghosts   []*Ghost
 	Immutable []string
+	PkgInvs  []*Clause // facts about package-level variables: established by init, assumed elsewhere
 	ChanInvs map[string][]*Clause // "Type.field" -> invariant over v
 }
 
@@ -517,7 +522,7 @@ var clauseKeywords = map[string]bool{
 	"requires": true, "ensures": true, "modifies": true, "loop": true, "maypanic": true,
 	"opaque": true, "pure": true, "assume": true, "noinline": true, "overflow": true,
 	"wraps": true, "fresh": true, "at": true, "induction": true, "params": true,
-	"ghost": true, "chaninv": true, "ufunc": true, "immutable": true, "inline": true,
+	"ghost": true, "chaninv": true, "ufunc": true, "immutable": true, "inline": true, "uses": true, "postuses": true, "deterministic": true, "pkginv": true,
 }
 
 // parseContractLines parses the "//@" lines of one package.
@@ -550,6 +555,14 @@ func parseContractLines(pkg string, lines []string) (*PkgContracts, error) {
 	for _, s := range stmts {
 		kw, rest := splitKeyword(s)
 		switch kw {
+		case "pkginv":
+			label, src := splitLabel(rest)
+			e, err := parseExpr(src)
+			if err != nil {
+				return nil, fmt.Errorf("%s: %s: %v", pkg, s, err)
+			}
+			pc.PkgInvs = append(pc.PkgInvs, &Clause{Kind: "pkginv", Label: labelOr(label, "pkginv"), Src: src, E: e})
+			cur, curLemma = nil, nil
 		case "immutable":
 			pc.Immutable = append(pc.Immutable, strings.Fields(rest)...)
 			cur, curLemma = nil, nil
@@ -727,6 +740,24 @@ func parseContractLines(pkg string, lines []string) (*PkgContracts, error) {
 			cur.Opaque = true
 		case "pure":
 			cur.Pure = true
+		case "deterministic":
+			// a pure function of its (scalar / string) arguments: calls with
+			// equal arguments return equal results
+			cur.Pure = true
+			cur.Deterministic = true
+		case "postuses":
+			// lemmas assumed at every return (in the final state)
+			if cur != nil {
+				cur.PostUses = append(cur.PostUses, splitTop(rest)...)
+			}
+		case "uses":
+			for _, n := range splitTop(rest) {
+				if curLemma != nil {
+					curLemma.Uses = append(curLemma.Uses, strings.TrimSpace(n))
+				} else if cur != nil {
+					cur.Uses = append(cur.Uses, strings.TrimSpace(n))
+				}
+			}
 		case "noinline":
 			cur.NoInline = true
 		case "inline":
@@ -883,4 +914,27 @@ func parseLocList(s string) ([]Expr, error) {
 		return nil, err
 	}
 	return out, nil
+}
+
+// splitTop splits a comma-separated list, ignoring commas inside brackets.
+func splitTop(s string) []string {
+	var out []string
+	depth, start := 0, 0
+	for i := 0; i < len(s); i++ {
+		switch s[i] {
+		case '(', '[':
+			depth++
+		case ')', ']':
+			depth--
+		case ',':
+			if depth == 0 {
+				out = append(out, strings.TrimSpace(s[start:i]))
+				start = i + 1
+			}
+		}
+	}
+	if t := strings.TrimSpace(s[start:]); t != "" {
+		out = append(out, t)
+	}
+	return out
 }
